@@ -29,6 +29,12 @@ CHECKS = {
  "C11": dict(level="exploration", family="converge", ref="6.9",
    technique="deterministic simulation: seeded file-system change histories with virtual inodes (reuse, restore), seeded directory order and scan-thread schedules; reference comparison of decoded content vs a walk of the disks",
    text="Seeded histories of the listed file-system operations between syncs under all scan orders, with/without UUIDs, parallel/sequential scans. Before each sync the diff verdict must match the comparison of the decoded content with a walk of the disks (and the incomplete-sync rule); after a successful complete sync every new/changed file was read, content == disks, diff 0, list == disks, check 0."),
+ "C12": dict(level="exploration", family="footprint", ref="6.10",
+   technique="deterministic simulation: every mutating system call of every simulated command checked against a per-command write policy, plus before/after snapshots of data, parity, content and pool around every command of the footprint family",
+   text="The file layer sees every mutating call, so the write policy is evaluated over the trace of every command of seven families (incl. killed and failing commands); the footprint family adds all read-only commands with options, scrub plans, touch, pool, rehash and filtered fix on healthy/unsynced/damaged/partially lost arrays with a byte+mtime+inode snapshot diff judged per command."),
+ "C13": dict(level="exploration", family="sched", ref="6.11",
+   technique="deterministic simulation: every thread interleaving decision (mutex/cond/join, wake-up choice, spurious wake-ups, timers) taken by a seeded scheduler; differential single-threaded vs threaded runs and a buffer-ownership state machine over io.c hand-over events obtained by link-time trampolines",
+   text="Each scenario runs without worker threads and then under cache depths 3..128 and seven scheduling policies with spurious wake-ups: parity, content, error set, scan classification, exit status and stripe order must be identical; ownership/exactly-once monitors run on every threaded command; deadlock and step bound are detected by the scheduler. Data races between two yield points are outside what a serialising scheduler can see."),
 }
 NA = [
  ("C02", "pure function of (nd, np, size, buffers, variant): no schedule, clock, fault, crash point or history for a simulator to own"),
